@@ -11,6 +11,7 @@ import (
 )
 
 type Clause struct {
+	Trusted bool // assumed at call sites, not proved for the function itself (listed as unverified)
 	Label string
 	Sx    *Sx
 	Src   string
@@ -81,7 +82,22 @@ type GhostSum struct {
 	Term  *Sx      // summand over the row: atoms that are Go field names of the row denote the field
 }
 
+// View: how a spec function over an abstract type reads a concrete record of that type
+// (used inside the package where the type is not abstract).
+type View struct {
+	Name, Type, Param string
+	Body              *Sx
+}
+
+// TypeInv: representation invariant assumed for every parameter of a concrete type in its own package.
+type TypeInv struct {
+	Type string
+	Body *Sx
+}
+
 type Spec struct {
+	Views     map[string]*View
+	TypeInvs  []*TypeInv
 	Abstract  map[string]*AbstractType
 	Comps     map[string]*Comp
 	Tables    map[string]*Table
@@ -97,7 +113,7 @@ type Spec struct {
 }
 
 func NewSpec() *Spec {
-	return &Spec{Abstract: map[string]*AbstractType{}, Comps: map[string]*Comp{}, Tables: map[string]*Table{},
+	return &Spec{Views: map[string]*View{}, Abstract: map[string]*AbstractType{}, Comps: map[string]*Comp{}, Tables: map[string]*Table{},
 		TableByIf: map[string]*Table{}, Macros: map[string]*Macro{}, Contracts: map[string]*Contract{},
 		Strs: NewStrTable(), Symbols: map[string]bool{}, StoreIfs: map[string]bool{}}
 }
@@ -146,6 +162,12 @@ func (sp *Spec) LoadSpecFile(path string) error {
 			}
 		case "assert":
 			sp.Prelude = append(sp.Prelude, sp.litCodes(x).String())
+		case "defview":
+			// (defview name "pkg.Type" param body)
+			sp.Views[x.List[1].Atom] = &View{Name: x.List[1].Atom, Type: unquote(x.List[2].Atom), Param: x.List[3].Atom, Body: x.List[4]}
+		case "typeinv":
+			// (typeinv "pkg.Type" body) with the value named x
+			sp.TypeInvs = append(sp.TypeInvs, &TypeInv{Type: unquote(x.List[1].Atom), Body: x.List[2]})
 		case "defmacro":
 			m := &Macro{Name: x.List[1].List[0].Atom, Body: x.List[2]}
 			for _, p := range x.List[1].List[1:] {
@@ -345,6 +367,18 @@ func (sp *Spec) LoadContractFile(path, defaultPkg string) error {
 				label = fmt.Sprintf("p%d", len(c.Panics)+1)
 			}
 			c.Panics = append(c.Panics, Clause{Label: label, Sx: sx, Src: rest})
+		case "ensures-trusted":
+			if err := need(); err != nil {
+				return err
+			}
+			sx, err := ParseOne(rest)
+			if err != nil {
+				return fmt.Errorf("%s: %s: %v", path, c.Func, err)
+			}
+			if label == "" {
+				label = fmt.Sprintf("t%d", len(c.Ensures)+1)
+			}
+			c.Ensures = append(c.Ensures, Clause{Label: label, Sx: sx, Src: rest, Trusted: true})
 		case "requires", "ensures":
 			if err := need(); err != nil {
 				return err
